@@ -6,13 +6,45 @@
    inside the source) and has no unbounded loop; the front-end parse loop (the tables of parser.rs, regenerated on this run) never
    reaches a Panic, for every token sequence and every fuel; the table-construction stage returns
    no error other than a conflict (so no other failure is disguised as one).
-   NOT proved: C07_total (generate_model never returns Panic, and some fuel always suffices);
-   the check runs the crate on malformed and unusual inputs in-process under catch_unwind and in
+   AND the whole statement's "no panic" half, for EVERY string and every iteration order of the
+   hash collections: the model of generate never returns Panic (C07_generate_never_panics).
+   The proof goes stage by stage and shows each invariant the code silently relies on:
+     tokens span substrings of the source on character boundaries (Lex/Spans.v), so the
+       error for an unexpected token can slice the source and Token::start cannot underflow;
+     the reduce functions + cst_to_ast are total on derivation trees of the Kiki grammar
+       (Front/CstTotal.v), and the parser only returns derivation trees (soundness of the
+       validated front-end tables);
+     validate_ast is straight-line Ok/Err code (Ast/NoPanic.v);
+     the FIRST map has an entry for the type of every rule; items only name existing rules;
+       queue indices are in range; the renumbering is total; every shift has a transition;
+       the goto-conflict arm is unreachable (transitions are deterministic and duplicate-free);
+       every lookahead and every symbol is a declared name; cells are in range (Build/NoPanic.v);
+     get_type / method-name lookups are for declared terminals, table reads are in range, and
+       the template regenerated from table_to_rust.rs on this run has no unbound hole
+       (Emit/NoPanic.v, re-checked by vm_compute).
+   NOT proved: that the model's fuel always suffices (the "no hang" half is modelled, not
+   proved, except for the tokenizer and the front-end parse loop below); host stack depth.
+   The check runs the crate on malformed and unusual inputs in-process under catch_unwind and in
    watchdog-guarded child processes, and requires Ok/Err equal to the model's result. *)
 From Coq Require Import List.
 From Kiki Require Import Base.Ord Base.Chars Data Lex.Model Lex.NoPanic LR.Driver LR.Term LR.ValidateProofs Front.Parse Front.KikiValid
-  Build.Machine Build.Table Build.TableProofs.
+  Build.Machine Build.Table Build.TableProofs Np Pipeline PipelineProofs.
 From Kiki Require Gen.KikiAnn.
+
+Theorem C07_generate_never_panics : forall ho digest src site,
+  perm_hash_order ho -> generate_model ho digest src <> Panic site.
+Proof. exact (fun ho digest src site H => generate_never_panics ho digest src H site). Qed.
+
+(* the two orders the correspondence check runs the model with are instances *)
+Theorem C07_checked_orders_never_panic : forall digest src site,
+  generate_model ho_id digest src <> Panic site /\ generate_model ho_rev digest src <> Panic site.
+Proof.
+  intros digest src site. split; apply C07_generate_never_panics.
+  - split; [intros l; apply Permutation.Permutation_refl|split; intros l; apply Permutation.Permutation_refl].
+  - split; [intros l; apply Permutation.Permutation_sym, Permutation.Permutation_rev|
+            split; intros l; apply Permutation.Permutation_sym, Permutation.Permutation_rev].
+Qed.
+
 
 Theorem C07_front_end_loop_never_panics : forall fuel (w : list token) site,
   parse token_kind kiki_ptable fuel w <> OPanic site.
@@ -46,3 +78,5 @@ Print Assumptions C07_front_end_loop_never_panics.
 Print Assumptions C07_tokenizer_never_panics.
 Print Assumptions C07_front_end_loop_terminates.
 Print Assumptions C07_table_stage_fails_only_with_a_conflict.
+Print Assumptions C07_generate_never_panics.
+Print Assumptions C07_checked_orders_never_panic.
